@@ -7,7 +7,7 @@
     sequences (64-bit counters in the code) cannot have wrapped.  Amounts are 64-bit in the
     code: the model computes every unchecked Go operation modulo 2^64 ([usub], [uadd]) and
     logs its operands ([events], [all_events]). *)
-From Irismod Require Import Mt.Model Mt.Proofs.
+From Irismod Require Import Mt.Model Mt.Proofs Mt.Check Mt.Sound.
 
 (** In every reachable state each holder is listed once, the holders' balances of every token
     add up to its recorded supply, no balance exceeds the supply, and the supply is a 64-bit
@@ -191,6 +191,19 @@ Theorem generated_ids_fresh :
 Proof. exact r_generated_ids_fresh. Qed.
 Print Assumptions generated_ids_fresh.
 
+(** The checker is sound for the model: the decidable predicates that the correspondence check
+    evaluates on the IMPLEMENTATION's observations (agreement with the model, and the seven
+    clauses of C15 on two consecutive observations) hold of the MODEL's own trace (the
+    observations computed from the model state) for every history of fewer than 2^64-1 steps:
+    the checker answers (-1, -1, 0).  So an alarm always means the implementation showed
+    something the model does not. *)
+Theorem model_passes_check :
+  forall steps : list step,
+    1 + Z.of_nat (length steps) <= max64 ->
+    check_case (model_trace init steps) = (-1, -1, 0).
+Proof. exact model_passes_check_lemma. Qed.
+Print Assumptions model_passes_check.
+
 (** ** The hypotheses are satisfiable on a non-trivial history *)
 Definition ex_hist : list step :=
   [ Msg (IssueDenom 0 2 5);                              (* actor 0 issues class 1 *)
@@ -214,7 +227,8 @@ Example c15_nonvacuous :
   /\ supply s 1 1 = 10 /\ balance s 1 1 1 = 1 /\ balance s 2 1 1 = 0 /\ balance s 3 1 1 = 9
   /\ holders_total s 1 1 = 10 /\ owner_of s 1 = Some 3 /\ get (1, 1) (mts s) = Some 7
   /\ created_denoms init ex_hist = [1] /\ created_mts init ex_hist = [1]
-  /\ length (all_events init ex_hist) = 13%nat.
+  /\ length (all_events init ex_hist) = 13%nat
+  /\ check_case (model_trace init ex_hist) = (-1, -1, 0).
 Proof.
   cbv zeta. split; [exists ex_hist; reflexivity|].
   split; [exists ex_hist; split; [reflexivity|vm_compute; discriminate]|].
